@@ -643,6 +643,10 @@ def check_case(case):
         return check_rbfrac(case)
     if case['k'] == 'diamond':
         return check_diamond(case)
+    if case['k'] == 'running':
+        return check_running(case)
+    if case['k'] == 'extreme':
+        return check_extreme(case)
     raise ValueError(case['k'])
 
 
@@ -684,6 +688,125 @@ def check_rbfrac(case):
             fails.append(('frozen|RANDBETWEEN:frac-%s' % how, 'RANDBETWEEN(%r,%r): %d calculations all gave %s' % (lo, hi, n, seen[how])))
     sut.np.random.set_state(state)
     return R(fails, nt=(lo != int(lo) or hi != int(hi) or lo < 0), n=2 * n, labels=['rbfrac', 'rbfrac:neg' if hi < 0 else 'rbfrac:pos'])
+
+
+def running_clock_cases():
+    """A clock that keeps running while the formula is evaluated (every look at it is one second later), started just
+    before midnight / the end of a month / of a year: NOW() lies between the instants before and after the call, TODAY()
+    is the date of one of them, and a second call is not earlier than the first (added after seed c13-a-r4)."""
+    starts = [(2024, 3, 9, 23, 59, 58), (2024, 2, 29, 23, 59, 59), (2023, 12, 31, 23, 59, 57), (2024, 3, 10, 12, 0, 0), (2024, 3, 9, 23, 59, 30)]
+    for st_ in starts:
+        for f in ('NOW()', 'TODAY()', 'NOW()-TODAY()', 'NOW()+0', 'INT(NOW())-TODAY()', 'HOUR(NOW())*3600+MINUTE(NOW())*60+SECOND(NOW())'):
+            for path in ('parser', 'cell', 'dict', 'compile'):
+                yield {'k': 'running', 'start': list(st_), 'f': f, 'path': path}
+
+
+def check_running(case):
+    import datetime
+    t0 = datetime.datetime(*case['start'])
+    base = datetime.datetime(1899, 12, 30)
+    ser = lambda t: (t - base).total_seconds() / 86400.0
+    Q = "'[b.xlsx]S'!"
+    fails, results = [], []
+    with Patched(5):
+        CLOCK.set_now(t0)
+        CLOCK.set_tick(1.0)
+        f = '=' + case['f']
+        if case['path'] == 'parser':
+            fn = sut.compile_formula(f)
+            call = lambda: sut.one(fn())
+        elif case['path'] == 'cell':
+            call = lambda: sut.one(sut.cell_eval('A1', f)[0])
+        else:
+            m = sut.ExcelModel().from_dict({Q + 'A1': f, Q + 'Z1': 1.0, Q + 'A2': '=%sA1+%sZ1' % (Q, Q)})
+            if case['path'] == 'dict':
+                call = lambda: sut.one(m.calculate()[Q + 'A1'])
+            else:
+                nodes = {str(k).upper(): k for k in m.dsp.data_nodes if isinstance(k, str)}
+                cf = m.compile([nodes[Q.upper() + 'Z1']], [nodes[Q.upper() + 'A1']])
+                call = lambda: sut.one(cf(2.0))
+        prev = None
+        for i in range(3):
+            before = CLOCK.get_now()
+            v = call()
+            after = CLOCK.get_now()
+            lo, hi = ser(before), ser(after)
+            ok = isinstance(v, float)
+            if ok and case['f'] in ('NOW()', 'NOW()+0'):
+                ok = lo - 1e-9 <= v <= hi + 1e-9
+                if ok and prev is not None and v < prev - 1e-12:
+                    ok = False
+            elif ok and case['f'] == 'TODAY()':
+                ok = v in (float(int(lo)), float(int(hi)))
+            elif ok and case['f'] == 'NOW()-TODAY()':
+                # two looks at the clock: each lies inside the call, so their difference may even be slightly negative
+                ok = -(hi - lo) - 1e-9 <= v <= 1.0 + (hi - lo) + 1e-9 and (int(lo) != int(hi) or 0.0 <= v < 1.0)
+            elif ok and case['f'] == 'INT(NOW())-TODAY()':
+                ok = v in (0.0, 1.0, -1.0) and (int(lo) != int(hi) or v == 0.0)
+            elif ok:
+                # seconds of the day spelled with three separate looks at the clock: any instant of the call, or mixed ones
+                ok = 0.0 <= v < 86400.0
+            if not ok:
+                fails.append(('running-clock|%s|%s' % (case['f'], case['path']), 'call %d started at %s, ended at %s: %s = %r' % (i + 1, before, after, case['f'], v)))
+                break
+            prev = v
+            results.append(v)
+    return R(fails, nt=True, n=3, labels=['part:running-clock', 'path:' + case['path']])
+
+
+def _untemper(y):
+    y ^= y >> 18
+    y ^= (y << 15) & 0xefc60000
+    x = y
+    for _ in range(5):
+        x = y ^ ((x << 7) & 0x9d2c5680)
+    y = x
+    x = y
+    for _ in range(3):
+        x = y ^ (x >> 11)
+    return x & 0xffffffff
+
+
+def extreme_draw_cases():
+    """The generator is put into the state whose next outputs are the largest / smallest values it can produce (all 32-bit
+    words 0xFFFFFFFF / 0): RAND() stays inside [0, 1), a die thrown with it stays on the die (added after seed c13-b-r4)."""
+    for word in (0xffffffff, 0x0, 0xfffffffe, 0x80000000):
+        for f, lo, hi in (('RAND()', 0.0, None), ('INT(RAND()*6)+1', 1.0, 6.0), ('RANDBETWEEN(1,6)', 1.0, 6.0), ('RAND()*RAND()', 0.0, None),
+                          ('INT(RAND()*1000000)', 0.0, 999999.0), ('RANDBETWEEN(-3,-3)', -3.0, -3.0)):
+            for path in ('parser', 'cell', 'dict', 'compile'):
+                yield {'k': 'extreme', 'word': word, 'f': f, 'lo': lo, 'hi': hi, 'path': path}
+
+
+def check_extreme(case):
+    np_ = sut.np
+    Q = "'[b.xlsx]S'!"
+    f = '=' + case['f']
+    fails = []
+    with Patched(7):
+        if case['path'] == 'parser':
+            fn = sut.compile_formula(f)
+            call = lambda: sut.one(fn())
+        elif case['path'] == 'cell':
+            call = lambda: sut.one(sut.cell_eval('A1', f)[0])
+        else:
+            m = sut.ExcelModel().from_dict({Q + 'A1': f, Q + 'Z1': 1.0})
+            if case['path'] == 'dict':
+                call = lambda: sut.one(m.calculate()[Q + 'A1'])
+            else:
+                nodes = {str(k).upper(): k for k in m.dsp.data_nodes if isinstance(k, str)}
+                cf = m.compile([nodes[Q.upper() + 'Z1']], [nodes[Q.upper() + 'A1']])
+                call = lambda: sut.one(cf(2.0))
+        for i in range(2):
+            key = np_.full(624, _untemper(case['word']), dtype=np_.uint32)
+            np_.random.set_state(('MT19937', key, 0))
+            v = call()
+            ok = isinstance(v, float) and v >= case['lo'] and (v < 1.0 if case['hi'] is None else v <= case['hi'])
+            if ok and case['hi'] is not None and v != int(v):
+                ok = False
+            if not ok:
+                fails.append(('extreme-draw|%s|%s' % (case['f'], case['path']), 'generator words %#x: %s = %r' % (case['word'], case['f'], v)))
+                break
+    return R(fails, nt=True, n=2, labels=['part:extreme-draws', 'path:' + case['path']])
 
 
 def check_diamond(case):
@@ -1103,4 +1226,6 @@ def parts(tier, seed):
                                                   (2.5, 2.9), (-10.25, -0.75), (0.0, 0.9), (-1.5, 1.5), (3.0, 3.0), (-4.5, -4.5)]], 2, False),
         ('enum', 'diamonds', [{'k': 'diamond', 'shape': sh_, 'via': via} for sh_ in ('diamond', 'chain-fan', 'late-join')
                              for via in ('orig', 'deepcopy', 'copy', 'dill', 'grow', 'grow-formula', 'recompile', 'calc-first', 'grow-placeholder', 'grow-placeholder-calc')], 1, False),
+        ('enum', 'running-clock', list(running_clock_cases()), 6, False),
+        ('enum', 'extreme-draws', list(extreme_draw_cases()), 6, False),
     ]
